@@ -115,6 +115,10 @@ _h_list = [
 h_l1, h_l2 = _h_list
 
 
+def h_pg(a, t):
+    return a * 10 + t
+
+
 def h_kwi(a, b):
     return (lambda a, b: a * 10 + b)(b=a, a=b)
 
